@@ -447,10 +447,17 @@ func (f *Func) reachTarget(
 		// For value vertices, we discount any other values that share the
 		// same name. This lets our shortest paths prefer matching through
 		// same-named arguments.
+		// While the arguments of a converter on the way to a named value are
+		// reached, that value's name stays the preferred one: the converter's
+		// type-only inputs should be fed by the same-named value as well.
+		affinity := state.Affinity
 		if currentValue, ok := current.(*valueVertex); ok {
+			affinity = currentValue.Name
+		}
+		if affinity != "" {
 			currentG = currentG.Copy()
 			for _, raw := range currentG.Vertices() {
-				if v, ok := raw.(*valueVertex); ok && v.Name == currentValue.Name {
+				if v, ok := raw.(*valueVertex); ok && v.Name == affinity {
 					for _, src := range currentG.InEdges(raw) {
 						currentG.AddEdgeWeighted(src, raw, weightMatchingName)
 					}
@@ -531,10 +538,17 @@ func (f *Func) reachTarget(
 	}
 
 	// Go through each path
-	for _, path := range paths {
+	for pathI, path := range paths {
 		// finalValue will be set to our final value that we see when walking.
 		// This will be set as the value for this required input.
 		var finalValue reflect.Value
+
+		// The name we're producing a value for (if any) is the preferred
+		// name for everything that has to be reached along this path.
+		oldAffinity := state.Affinity
+		if cv, ok := vertexT[pathI].(*valueVertex); ok {
+			state.Affinity = cv.Name
+		}
 
 		for pathIdx, vertex := range path {
 			log.Trace("executing node", "current", vertex)
@@ -636,6 +650,8 @@ func (f *Func) reachTarget(
 			panic(fmt.Sprintf("didn't reach a final value for path: %#v", path))
 		}
 
+		state.Affinity = oldAffinity
+
 		// We store the final value in the input map.
 		log.Trace("final value", "vertex", path[len(path)-1], "value", finalValue.Interface())
 		argMap[graph.VertexID(path[len(path)-1])] = finalValue
@@ -723,6 +739,11 @@ type callState struct {
 	// being reached further up the stack. This is used to detect functions
 	// that transitively depend on themselves.
 	Reaching map[interface{}]struct{}
+
+	// Affinity is the name of the named value that is currently being
+	// produced, or empty. Values with this name are preferred as inputs of
+	// the converters on the way there.
+	Affinity string
 }
 
 func newCallState() *callState {
